@@ -9,7 +9,7 @@ from .. import driver, explore, fakegit, hist, inject
 
 ID = "C12"
 LEVEL = "fault_enumeration"
-RULE = ("archives with 1-3 versions x prior project states {empty, holding one of the archived versions (recorded), holding an "
+RULE = ("archives with 1-3 versions (also: two versions of one task; 300 versions, intact only) x prior project states {empty, holding one of the archived versions (recorded), holding an "
         "unrecorded directory with a colliding name, holding unrelated recorded versions, holding a stale staging directory left by a "
         "killed restore of another archive} x every single corruption {none, index member removed, each version directory removed, "
         "stream truncated at every 512-byte block (every byte for the smallest archive in thorough), index replaced by garbage, index in "
@@ -41,8 +41,23 @@ def warmup():
 def make_archive(nversions, t0=1_700_000_000, name="c12src", target=None):
     """-> (archive bytes, rows, {vdir: subtree digest})"""
     root = driver.fresh_project({"COND": COND}, name=name)
-    target = target or {1: "//:e1", 2: "//:e2", 3: "//:e3"}[nversions]
-    hist.run(root, ["run", target], clock=driver.Clock(t0 + 10), behaviours=BEH)
+    if nversions == "2same":
+        # two versions of ONE task plus one of its dependency
+        hist.run(root, ["run", "//:e2"], clock=driver.Clock(t0 + 10), behaviours=BEH)
+        hist.run(root, ["run", "//:e2", "--again"], clock=driver.Clock(t0 + 20), behaviours=BEH)
+    elif nversions == "big":
+        # 3 tasks x 100 versions, written directly (more rows than any batch size a loader is likely to use)
+        rows, tree = [], {}
+        for ti, tid in enumerate(("//:e1", "//:e2", "//:e3")):
+            for k in range(100):
+                ts = t0 + 1000 * ti + k
+                rows.append((tid, ts, None, 0))
+                tree[os.path.join("cond-out", vdir((tid, ts)), "v.txt")] = "%s %d\n" % (tid, ts)
+        driver.write_tree(root, tree)
+        driver.make_index(os.path.join(root, "cond-out", "version_index.sqlite"), rows)
+    else:
+        target = target or {1: "//:e1", 2: "//:e2", 3: "//:e3"}[nversions]
+        hist.run(root, ["run", target], clock=driver.Clock(t0 + 10), behaviours=BEH)
     arch = os.path.join(root, "A.tar.gz")
     r = hist.run(root, ["archive", "-o", arch])
     assert r.exit == 0, r.err_text
@@ -250,6 +265,11 @@ def items(tier):
         for prior in PRIORS:
             out.append({"kind": "corrupt", "nv": nv, "prior": prior})
             out.append({"kind": "crash", "nv": nv, "prior": prior})
+    # archives holding several versions of one task, and a large archive (300 versions)
+    for prior in ("empty", "holds-unrelated", "holds-recorded-same", "holds-unrecorded-dir"):
+        out.append({"kind": "corrupt", "nv": "2same", "prior": prior})
+    out.append({"kind": "crash", "nv": "2same", "prior": "empty"})
+    out.append({"kind": "corrupt", "nv": "big", "prior": "empty", "only_intact": True})
     # SIGINT/SIGTERM instead of SIGKILL: ConductorAbort raised at every line of Conductor code during the restore (the cleanup
     # code runs), and a real SIGTERM while the external tar is half-way through a file
     for nv in (1, 2):
@@ -394,7 +414,7 @@ def run_item(item, tier):
     other = make_archive(2, t0=1_600_000_000, name="c12other", target="//:e2") + (data,)
     other = (other[0], other[1], other[2], data)
     if item["kind"] == "corrupt":
-        for cname, cdata in corruptions(data, arows, tier, smallest=(item["nv"] == 1)):
+        for cname, cdata in ([("none", data)] if item.get("only_intact") else corruptions(data, arows, tier, smallest=(item["nv"] == 1))):
             root = make_prior(item["prior"], arows, other)
             rows_before = hist.rows(root)
             tree_before = hist.data_tree(root)
@@ -500,5 +520,6 @@ def _crash(item, tier, data, arows, adirs, other, res, viol):
 
 
 def replay(artefact):
-    r = run_item({"kind": artefact["kind"], "nv": artefact["nv"], "prior": artefact["prior"], "chunk": artefact.get("chunk", 0)}, "quick")
+    r = run_item({"kind": artefact["kind"], "nv": artefact["nv"], "prior": artefact["prior"], "chunk": artefact.get("chunk", 0),
+                  "only_intact": artefact["nv"] == "big"}, "quick")
     return [(v["key"], v["what"]) for v in r["violations"]]
